@@ -67,8 +67,16 @@ def sequence(rng, exact):
 
 
 def generate(rng, tier):
-    g = {"exact": [], "quantised": [], "through-logger": []}
+    g = {"exact": [], "quantised": [], "through-logger": [], "reused-objects": []}
     n = 4000 if tier == "quick" else 150000
+    # the same Encoder and Renderer used for an earlier graphic that left the selectors (and possibly an open path)
+    # behind, then Reset: the selectors must agree at every point of the second graphic too
+    for i in range(n // 8):
+        first = sequence(rng, True)
+        first += ["CS", str(rng.range(1, 63)), "NS", str(rng.range(1, 63))]
+        if i % 3 == 0:
+            first += ["SP", "0", exact_f(rng), exact_f(rng), "L", exact_f(rng), exact_f(rng)]
+        g["reused-objects"].append("PIPE 0 0 64 64 " + " ".join(first + ["NEW"] + sequence(rng, True)))
     for _ in range(n):
         g["exact"].append("PIPE 0 0 64 64 " + " ".join(sequence(rng, True)))
         rc = R.rect(rng)
